@@ -249,7 +249,7 @@ class Encrypt(Machine):
         entry = op["entry"]
         if entry in ("cli", "main"):
             argv = ["encrypt", "encrypt-and-generate", "--firmware", fw_path, "--key-name", op["key"],
-                    "--key-id", hex(op["kid"]) if op["kid"] % 2 else str(op["kid"]), "--context", ctx,
+                    "--key-id", self.num(op["kid"], (op["i"], "k")), "--context", ctx,
                     "--output-dir", host.path(op["out"]), "--hash-alg", op["hash"],
                     "--kms-script", world.KMS_SCRIPT, "--encrypt-script", world.ENCRYPT_SCRIPT]
             return host.cli(argv, kind="encrypt", faults=faults, full_main=(entry == "main"))
@@ -500,12 +500,22 @@ class Encrypt(Machine):
         ct_tag = AESGCM(key).encrypt(iv, plain, cose.enc_structure(PROTECTED))
         blob = iv + ct_tag[-16:] + ct_tag[:-16]
         cek = s.bytes(op["cek"])
-        host.write(f"asset{op['i']}.bin", blob)
-        host.write(f"cek{op['i']}.bin", cek)
+        asset_rel = f"asset{op['i']}.bin"
+        asset_arg = None
+        # an external KMS may have left its iv||tag||ciphertext blob in the artifact directory under the very name the
+        # command writes (the input *is* one of the outputs), spelled in a way that hides the identity
+        in_place = op["entry"] == "cli" and (op["i"] + len(op["out"])) % 4 == 0
         self._stale(host, model, op)
+        if in_place:
+            asset_rel = f"{op['out']}/encrypted_content.bin"
+            asset_arg = [host.path(asset_rel), host.path(op["out"]) + "/./encrypted_content.bin",
+                         host.path(op["out"]) + "/../" + op["out"] + "/encrypted_content.bin"][op["i"] % 3]
+            ex["geninfo_input_is_output"] = ex.get("geninfo_input_is_output", 0) + 1
+        host.write(asset_rel, blob)
+        host.write(f"cek{op['i']}.bin", cek)
         if op["entry"] == "cli":
-            argv = ["encrypt", "generate-info", "--encrypted-firmware", host.path(f"asset{op['i']}.bin"),
-                    "--encrypted-key", host.path(f"cek{op['i']}.bin"), "--key-id", str(op["kid"]),
+            argv = ["encrypt", "generate-info", "--encrypted-firmware", asset_arg or host.path(asset_rel),
+                    "--encrypted-key", host.path(f"cek{op['i']}.bin"), "--key-id", self.num(op["kid"], (op["i"], "k")),
                     "--kw-alg", op["kw"], "--output-dir", host.path(op["out"]),
                     "--encrypt-script", world.ENCRYPT_SCRIPT]
             o = host.cli(argv, kind="generate-info", faults=faults)
@@ -523,6 +533,8 @@ class Encrypt(Machine):
         if not faulted:
             ex["valid_ops"] += 1
         if o.cls == "crash" and host.swarm.get("rerun_after_crash") and op["entry"] == "cli":
+            if in_place:
+                host.write(asset_rel, blob)  # the interrupted run may have cut its own input; the KMS delivers it again
             o = host.cli(argv, kind="generate-info")
             ex["reruns_after_crash"] += 1
             ex["valid_ops"] += 1
